@@ -33,8 +33,8 @@ type ipCase struct {
 }
 
 // the directory universe of ImportPath.tla
-var c17Inside = [][]string{{"root", "a"}, {"root", "b", "a"}, {"root", "b", "c", "a"}, {"root", "d.x"}, {"root", "s p", "a"}, {"root", "..x"}, {"root", "root", "a"}, {"root", "c"}}
-var c17Outside = [][]string{{"a"}, {"b"}, {"c"}, {"rootx"}, {"root2", "a"}, {"d.x"}, {"..x"}}
+var c17Inside = [][]string{{"root", "a"}, {"root", "b", "a"}, {"root", "b", "c", "a"}, {"root", "d.x"}, {"root", "s p", "a"}, {"root", "..x"}, {"root", "root", "a"}, {"root", "c"}, {"root", "b.ecal"}}
+var c17Outside = [][]string{{"root.ecal"}, {"a"}, {"b"}, {"c"}, {"rootx"}, {"root2", "a"}, {"d.x"}, {"..x"}}
 
 func insidePrefix(root string) string {
 	if strings.HasPrefix(root, "nested") {
